@@ -31,7 +31,7 @@ theorem get_issued_foldl_addIssued (l : List (KeyId × ChildCert)) (cs : ChildCe
         exact ⟨fun h => hk h.symm, hn⟩
 
 theorem suspended_foldl_addIssued (l : List (KeyId × ChildCert)) (cs : ChildCerts) :
-    (l.foldl ChildCerts.addIssued cs).suspended = cs.suspended := by
+    (l.foldl ChildCerts.addIssued cs).suspended = l.foldl (fun m a => del m a.1) cs.suspended := by
   induction l generalizing cs with
   | nil => rfl
   | cons p t ih => simp only [List.foldl_cons, ih, ChildCerts.addIssued]
